@@ -8,6 +8,7 @@ package keeper
 
 //@ import types "github.com/ovrclk/akash/x/market/types"
 //@ import dtypes "github.com/ovrclk/akash/x/deployment/types"
+//@ import keeper "github.com/ovrclk/akash/x/market/keeper"
 
 // ---- store layout (C06): byte-level definitions, key functions verified against them ----
 //@ spec abstract orderKeyOf(id: types.OrderID): str = "\x01\x00" + id.Owner + be64(id.DSeq) + be32(id.GSeq) + be32(id.OSeq)
@@ -65,6 +66,126 @@ package keeper
 //@ lemma kindsDisjoint(o: types.OrderID, b: types.BidID, l: types.LeaseID)
 //@   theory strings
 //@   ensures orderKeyOf(o) != bidKeyOf(b) && orderKeyOf(o) != leaseKeyOf(l) && bidKeyOf(b) != leaseKeyOf(l)
+
+// ---- C04 / C16: keeper operations = exact store update + exactly the typed event -------------
+//@ spec ordOf(val: map[str]str, id: types.OrderID): types.Order = decode(types.Order, val[orderKeyOf(id)])
+//@ spec bidOf(val: map[str]str, id: types.BidID): types.Bid = decode(types.Bid, val[bidKeyOf(id)])
+//@ spec leaseOf(val: map[str]str, id: types.LeaseID): types.Lease = decode(types.Lease, val[leaseKeyOf(id)])
+//@ spec asLease(id: types.BidID): types.LeaseID
+//@ axiom asLeaseDef: forall id: types.BidID :: asLease(id).Owner == id.Owner && asLease(id).DSeq == id.DSeq && asLease(id).GSeq == id.GSeq && asLease(id).OSeq == id.OSeq && asLease(id).Provider == id.Provider
+//@   trigger asLease(id)
+
+// the escrow module as seen from the market keeper: it has its own store (A-WIRING: distinct store keys);
+// closing a bid-deposit account touches neither this store nor the event log of typed marketplace events
+//@ spec mktEscrowSKey(): iface
+//@ extern keeper.(EscrowKeeper).AccountClose(recv, ctx, id)
+//@   modifies ghost KVhas, ghost KVval, ghost G, ghost Bank, ghost Mod, ghost It_all, ghost EvN, ghost EvLog
+//@   ensures id.Scope == "bid" ==> EvN == old(EvN) && EvLog == old(EvLog)
+//@        && (forall sk: iface :: sk != mktEscrowSKey() ==> KVhas[sk] == old(KVhas)[sk] && KVval[sk] == old(KVval)[sk])
+//@ extern keeper.(EscrowKeeper).PaymentClose(recv, ctx, id, pid)
+//@   modifies ghost KVhas, ghost KVval, ghost G, ghost Bank, ghost Mod, ghost It_all, ghost EvN, ghost EvLog
+
+//@ func (Keeper).GetOrder
+//@   ensures result1 <==> KVhas[k.skey][orderKeyOf(id)]
+//@   ensures result1 ==> result0 == ordOf(KVval[k.skey], id)
+//@ func (Keeper).GetBid
+//@   ensures result1 <==> KVhas[k.skey][bidKeyOf(id)]
+//@   ensures result1 ==> result0 == bidOf(KVval[k.skey], id)
+//@ func (Keeper).GetLease
+//@   ensures result1 <==> KVhas[k.skey][leaseKeyOf(id)]
+//@   ensures result1 ==> result0 == leaseOf(KVval[k.skey], id)
+
+//@ func (Keeper).updateOrder
+//@   modifies ghost KVhas, ghost KVval, ghost G
+//@   ensures KVhas == old(KVhas)[k.skey := old(KVhas)[k.skey][orderKeyOf(order.OrderID) := true]]
+//@   ensures KVval == old(KVval)[k.skey := old(KVval)[k.skey][orderKeyOf(order.OrderID) := encode(order)]]
+//@ func (Keeper).updateBid
+//@   modifies ghost KVhas, ghost KVval, ghost G
+//@   ensures KVhas == old(KVhas)[k.skey := old(KVhas)[k.skey][bidKeyOf(bid.BidID) := true]]
+//@   ensures KVval == old(KVval)[k.skey := old(KVval)[k.skey][bidKeyOf(bid.BidID) := encode(bid)]]
+//@ func (Keeper).updateLease
+//@   modifies ghost KVhas, ghost KVval, ghost G
+//@   ensures KVhas == old(KVhas)[k.skey := old(KVhas)[k.skey][leaseKeyOf(lease.LeaseID) := true]]
+//@   ensures KVval == old(KVval)[k.skey := old(KVval)[k.skey][leaseKeyOf(lease.LeaseID) := encode(lease)]]
+
+//@ func (Keeper).CreateBid
+//@   modifies ghost KVhas, ghost KVval, ghost G, ghost EvN, ghost EvLog
+//@   ensures [exists] old(KVhas)[k.skey][bidKeyOf(result0.BidID)] || result1 != nil ==> result1 != nil && KVhas == old(KVhas) && KVval == old(KVval) && EvN == old(EvN)
+//@   ensures [created] result1 == nil ==> result0.BidID.Owner == oid.Owner && result0.BidID.DSeq == oid.DSeq && result0.BidID.GSeq == oid.GSeq && result0.BidID.OSeq == oid.OSeq
+//@                && result0.BidID.Provider == bech32(provider) && result0.State == types.BidOpen && result0.Price == price
+//@                && !old(KVhas)[k.skey][bidKeyOf(result0.BidID)]
+//@                && KVhas == old(KVhas)[k.skey := old(KVhas)[k.skey][bidKeyOf(result0.BidID) := true]]
+//@                && KVval == old(KVval)[k.skey := old(KVval)[k.skey][bidKeyOf(result0.BidID) := encode(result0)]]
+//@                && EvN == old(EvN) + 1 && EvLog == old(EvLog)[old(EvN) := sigBid(1, result0.BidID, price)]
+// the lease takes the bid's identity and price
+//@ func (Keeper).CreateLease
+//@   modifies ghost KVhas, ghost KVval, ghost G, ghost EvN, ghost EvLog
+//@   ensures [lease] KVhas == old(KVhas)[k.skey := old(KVhas)[k.skey][leaseKeyOf(asLease(bid.BidID)) := true]]
+//@   ensures [price] leaseOf(KVval[k.skey], asLease(bid.BidID)).Price == bid.Price && leaseOf(KVval[k.skey], asLease(bid.BidID)).State == types.LeaseActive
+//@                && leaseOf(KVval[k.skey], asLease(bid.BidID)).LeaseID == asLease(bid.BidID)
+//@   ensures [only] exists l: types.Lease :: KVval == old(KVval)[k.skey := old(KVval)[k.skey][leaseKeyOf(asLease(bid.BidID)) := encode(l)]]
+//@   ensures [event] EvN == old(EvN) + 1 && EvLog == old(EvLog)[old(EvN) := sigLease(1, asLease(bid.BidID), bid.Price)]
+//@ func (Keeper).OnOrderMatched
+//@   modifies ghost KVhas, ghost KVval, ghost G
+//@   ensures KVhas == old(KVhas)[k.skey := old(KVhas)[k.skey][orderKeyOf(order.OrderID) := true]]
+//@   ensures KVval == old(KVval)[k.skey := old(KVval)[k.skey][orderKeyOf(order.OrderID) := encode(upd(order, State, types.OrderActive))]]
+//@ func (Keeper).OnBidMatched
+//@   modifies ghost KVhas, ghost KVval, ghost G
+//@   ensures KVhas == old(KVhas)[k.skey := old(KVhas)[k.skey][bidKeyOf(bid.BidID) := true]]
+//@   ensures KVval == old(KVval)[k.skey := old(KVval)[k.skey][bidKeyOf(bid.BidID) := encode(upd(bid, State, types.BidActive))]]
+//@ func (Keeper).OnBidLost
+//@   modifies ghost KVhas, ghost KVval, ghost G
+//@   ensures KVhas == old(KVhas)[k.skey := old(KVhas)[k.skey][bidKeyOf(bid.BidID) := true]]
+//@   ensures KVval == old(KVval)[k.skey := old(KVval)[k.skey][bidKeyOf(bid.BidID) := encode(upd(bid, State, types.BidLost))]]
+// closing is idempotent: a closed (or lost) record is left alone and no event is emitted
+//@ func (Keeper).OnBidClosed
+//@   requires k.skey != mktEscrowSKey()
+//@   modifies ghost KVhas, ghost KVval, ghost G, ghost Bank, ghost Mod, ghost It_all, ghost EvN, ghost EvLog
+//@   ensures [noop] bid.State == types.BidClosed || bid.State == types.BidLost ==> KVhas == old(KVhas) && KVval == old(KVval) && EvN == old(EvN) && EvLog == old(EvLog)
+//@   ensures [closed] !(bid.State == types.BidClosed || bid.State == types.BidLost) ==>
+//@                KVhas[k.skey] == old(KVhas)[k.skey][bidKeyOf(bid.BidID) := true]
+//@                && KVval[k.skey] == old(KVval)[k.skey][bidKeyOf(bid.BidID) := encode(upd(bid, State, types.BidClosed))]
+//@                && EvN == old(EvN) + 1 && EvLog == old(EvLog)[old(EvN) := sigBid(2, bid.BidID, bid.Price)]
+//@ func (Keeper).OnOrderClosed
+//@   modifies ghost KVhas, ghost KVval, ghost G, ghost EvN, ghost EvLog
+//@   ensures [noop] order.State == types.OrderClosed ==> KVhas == old(KVhas) && KVval == old(KVval) && EvN == old(EvN) && EvLog == old(EvLog)
+//@   ensures [closed] order.State != types.OrderClosed ==>
+//@                KVhas == old(KVhas)[k.skey := old(KVhas)[k.skey][orderKeyOf(order.OrderID) := true]]
+//@                && KVval == old(KVval)[k.skey := old(KVval)[k.skey][orderKeyOf(order.OrderID) := encode(upd(order, State, types.OrderClosed))]]
+//@                && EvN == old(EvN) + 1 && EvLog == old(EvLog)[old(EvN) := sigOrder(2, order.OrderID)]
+//@ func (Keeper).OnLeaseClosed
+//@   modifies ghost KVhas, ghost KVval, ghost G, ghost EvN, ghost EvLog
+//@   ensures [noop] lease.State == types.LeaseClosed || lease.State == types.LeaseInsufficientFunds ==> KVhas == old(KVhas) && KVval == old(KVval) && EvN == old(EvN) && EvLog == old(EvLog)
+//@   ensures [closed] !(lease.State == types.LeaseClosed || lease.State == types.LeaseInsufficientFunds) ==>
+//@                KVhas == old(KVhas)[k.skey := old(KVhas)[k.skey][leaseKeyOf(lease.LeaseID) := true]]
+//@                && KVval == old(KVval)[k.skey := old(KVval)[k.skey][leaseKeyOf(lease.LeaseID) := encode(upd(lease, State, state))]]
+//@                && EvN == old(EvN) + 1 && EvLog == old(EvLog)[old(EvN) := sigLease(2, lease.LeaseID, lease.Price)]
+
+// ---- higher-order iterators: exactly the records under the prefix, in key order, until the callback says stop ----
+//@ func (Keeper).WithOrdersForGroup
+//@   iterates fn over k.skey, ordersForGroupOf(id) as types.Order
+//@   modifies ghost It_all
+//@   loop 1 invariant ItHas[iter] == old(KVhas)[k.skey] && ItVal[iter] == old(KVval)[k.skey] && ItPrefix[iter] == ordersForGroupOf(id)
+//@   loop 1 invariant ItPos[iter] == CbN - old(CbN) && 0 <= ItPos[iter] && ItPos[iter] <= enumLen(old(KVhas)[k.skey], ordersForGroupOf(id))
+//@   loop 1 invariant forall j: int :: 0 <= j && j < CbN - old(CbN) ==> CbArg_types_Order[old(CbN)+j] == decode(types.Order, old(KVval)[k.skey][enumKey(old(KVhas)[k.skey], ordersForGroupOf(id), j)])
+//@   loop 1 invariant forall j: int :: 0 <= j && j < CbN - old(CbN) ==> !CbRes[old(CbN)+j]
+//@ func (Keeper).WithBidsForOrder
+//@   iterates fn over k.skey, bidsForOrderOf(id) as types.Bid
+//@   modifies ghost It_all
+//@   loop 1 invariant ItHas[iter] == old(KVhas)[k.skey] && ItVal[iter] == old(KVval)[k.skey] && ItPrefix[iter] == bidsForOrderOf(id)
+//@   loop 1 invariant ItPos[iter] == CbN - old(CbN) && 0 <= ItPos[iter] && ItPos[iter] <= enumLen(old(KVhas)[k.skey], bidsForOrderOf(id))
+//@   loop 1 invariant forall j: int :: 0 <= j && j < CbN - old(CbN) ==> CbArg_types_Bid[old(CbN)+j] == decode(types.Bid, old(KVval)[k.skey][enumKey(old(KVhas)[k.skey], bidsForOrderOf(id), j)])
+//@   loop 1 invariant forall j: int :: 0 <= j && j < CbN - old(CbN) ==> !CbRes[old(CbN)+j]
+
+// the number of bids on an order (C08: bid cap)
+//@ func (Keeper).BidCountForOrder
+//@   modifies ghost It_all
+//@   ensures result == enumLen(KVhas[k.skey], bidsForOrderOf(id))
+//@   loop 1 invariant ItHas[iter] == KVhas[k.skey] && ItPrefix[iter] == bidsForOrderOf(id) && ItPos[iter] == count && count >= 0 && count <= enumLen(KVhas[k.skey], bidsForOrderOf(id))
+
+//@ property C04 := (Keeper).GetOrder#*, (Keeper).GetBid#*, (Keeper).GetLease#*, (Keeper).updateOrder#*, (Keeper).updateBid#*, (Keeper).updateLease#*,
+//@                 (Keeper).CreateBid#*, (Keeper).CreateLease#*, (Keeper).OnOrderMatched#*, (Keeper).OnBidMatched#*, (Keeper).OnBidLost#*, (Keeper).OnBidClosed#*,
+//@                 (Keeper).OnOrderClosed#*, (Keeper).OnLeaseClosed#*, (Keeper).WithOrdersForGroup#*, (Keeper).WithBidsForOrder#*, (Keeper).BidCountForOrder#*
 
 //@ property C06 := orderKey#*, bidKey#*, leaseKey#*, ordersForGroupPrefix#*, bidsForOrderPrefix#*,
 //@     lemma:orderKeyInj, lemma:bidKeyInj, lemma:leaseKeyInj, lemma:ordersForGroupExact, lemma:bidsForOrderExact, lemma:kindsDisjoint
